@@ -256,6 +256,7 @@ func (s *Server) dispatchLocked(next jmessages, ch sender) func() error {
 	s.waitForBarrier(notes)
 
 	return func() error {
+		vhook.Point("srv.batch.start", s, tasks[0].hreq, len(tasks))
 		var wg sync.WaitGroup
 		for _, t := range tasks {
 			if t.err != nil {
